@@ -199,6 +199,17 @@ def run(ctx: Ctx) -> RuleResult:
     res.ob('%s %s' % (pfs.loc(), pfs.qual), '$END borrows the coordinates of the last token whenever there is one', ok)
     if not ok:
         res.finding(pfs, pfs.node, 'the end token does not borrow the last token\'s coordinates under `token is not None`', construct='end-borrow')
+    # ... and every resumption hands the last token over (a fresh parse has none)
+    for site in cg.callers_of(pfs.qual):
+        if not isinstance(site.node, ast.Call) or site.func.qual == 'lark.parsers.lalr_parser:_Parser.parse':
+            continue
+        call = site.node
+        lt = [k.value for k in call.keywords if k.arg == 'last_token'] + list(call.args[1:2])
+        ok = bool(lt) and norm(lt[0]).endswith('.last_token')
+        res.ob('%s %s' % (site.func.loc(call), site.func.qual), 'a resumed parse passes the lexer state\'s last token to parse_from_state', ok)
+        if not ok:
+            res.finding(site.func, enclosing_stmt(call), 'parse_from_state is resumed without the last token: when only ignorable text remains, '
+                        'the unexpected $END is reported at 1:1 instead of at the last token', construct='resume-without-last-token')
     # Earley: expected sets are computed from the scan buffer
     for fq, cls in (('lark.parsers.earley:Parser._parse.scan', 'UnexpectedToken'), ('lark.parsers.xearley:Parser._parse.scan', 'UnexpectedCharacters')):
         f = repo.func(fq)
